@@ -956,6 +956,10 @@ func (c *Client) connect() error {
 		config.CleanSession = false
 	}
 	conn, bufr, err := c.dialAndConnect(&config)
+	if err == context.Canceled && c.ctx.Err() == nil {
+		// from the Dialer itself; the Client is not closed
+		err = fmt.Errorf("mqtt: dial failed: %w", err)
+	}
 	switch err {
 	case nil:
 		break
